@@ -53,7 +53,11 @@ func variantOf(base []grammar.Token, r *rand.Rand, features map[string]bool) str
 		switch x.Kind {
 		case "NUMBER":
 			if r.Intn(3) == 0 {
-				x.Val = strings.Repeat("0", 1+r.Intn(3)) + x.Val
+				n := 1 + r.Intn(3)
+				if r.Intn(6) == 0 {
+					n = 18 + r.Intn(30) // far more digits than any 64-bit number has
+				}
+				x.Val = strings.Repeat("0", n) + x.Val
 				features["leading-zero"] = true
 			}
 		case "SHARP":
